@@ -55,6 +55,15 @@ def mon_order(w):
             w.flag("nothing-after-closed", "c%d:%s" % (c.ci, late[0][0]), "client %d: %r after closed" % (c.ci, late))
 
 
+def mon_closed_once(w):
+    """the only clause checked against a server that sends a malformed response (outside the property's quantifier for the
+    ordering clauses): the closed notification is delivered at most once, and its verdict does not change afterwards"""
+    for c in w.clients:
+        cl = [v for k, v in c.app.obs if k == "closed"]
+        if len(cl) > 1 or c.app.closed > 1:
+            w.flag("once", "c%d:closed" % c.ci, "client %d was told closed %d times: %r" % (c.ci, max(len(cl), c.app.closed), cl))
+
+
 GET_RANK = {"get:code": 0, "get:key": 1, "get:verifier": 2, "get:versions": 3, "get:message": 3}
 
 
@@ -160,6 +169,14 @@ def scenarios(tier):
     S.append(mk("deferred-gets4-turns", cfg("deferred", 0, 0, (0,), gets=G4, explored=TURN, close0=False), max_depth=120, max_states=400000))
     S.append(mk("deferred-turns-dev2", cfg("deferred", 1, 2, (0, 1), drops=(1, 1), explored=TURN, peer_close=True), dev_bound=2, max_depth=250))
     S.append(mk("delegate-dev2-faults", cfg("delegate", 1, 2, (0, 1), drops=(1, 1), reorder=1, dup=1, peer_close=True), dev_bound=2, max_depth=250))
+    # a server that sends one malformed response (fields missing): the wormhole errors out -- still closed exactly once and last,
+    # whatever arrives afterwards
+    for mode in ("delegate", "deferred"):
+        jc = cfg(mode, 1, 1, (0,), explored=("down", "up", "api", "connect", "junk", "stopfin"))
+        jc["junk"] = 1
+        jc["monitors"] = [mon_closed_once]
+        jc["final_monitors"] = []
+        S.append(mk("%s-junk-response" % mode, jc, dev_bound=2 if q else 3, max_depth=200))
     if not q:
         S.append(mk("deferred-gets2-fine0", cfg("deferred", 0, 2, (0,), gets=G2), max_depth=100, max_states=4000000))
         S.append(mk("deferred-fine0-close-drop1", cfg("deferred", 1, 2, (0,), drops=(1, 0)), max_depth=120, max_states=4000000))
